@@ -203,3 +203,66 @@ Theorem C11_rename_local_laid_partial : forall P W w f name line col v o,
             forall x, In x l <-> In x (spec_refs [(f, bind_file P)] f o).
 Proof. exact (refs_local_final MRename). Qed.
 Print Assumptions C11_rename_local_laid_partial.
+
+(* ================================================================== composition (agent c12-compose)
+   Proofs/ComposeBind*.v; guards as in Properties/C06.v (bind_guard, occ_guard, occ_request_guard, request_guard):
+   the C05 hypotheses of C11_rename_local_laid_partial discharged with C05_define_local_partial, then lifted to whole
+   rename requests over file bytes.  Missing for C11_rename_full: globals, the refuted classes, ident_at from the lexer. *)
+From LH Require Import Proofs.PositionBindWitness Proofs.ComposeBind Proofs.ComposeBindText Proofs.ComposeBindRun.
+
+(* model level: at every cursor column of an occurrence that Lua binds to a local declaration, rename edits exactly
+   (as a set, without repetition) the binder's occurrences of that variable *)
+Theorem C11_rename_local_closed_model : forall W P w f o d col,
+  bind_guard W P = true -> In o (bind_file P) -> occ_guard P o = true -> s_bind o = BLocal d ->
+  (sc (s_loc o) <= col <= ec (s_loc o))%Z ->
+  exists l, references_at MRename w f (analyse P) (s_name o) (sl (s_loc o)) col = Some l /\
+            (forall x, In x l <-> In x (spec_refs [(f, bind_file P)] f o)) /\
+            NoDup l /\ NoDup (spec_refs [(f, bind_file P)] f o).
+Proof. exact (refs_local_closed MRename). Qed.
+Print Assumptions C11_rename_local_closed_model.
+
+(* request level = the statement of C11_rename_full restricted to local variables and the guard *)
+Theorem C11_rename_local_partial_closed : forall W files f line col o d l,
+  occ_request_guard W files f o = true -> spec_occ files f line col = Some o -> s_bind o = BLocal d ->
+  run_refs files MRename f line col = ALocs l -> same_locs l (spec_refs (spec_ws files) f o) = true.
+Proof. exact (refs_request_closed_occ MRename). Qed.
+Print Assumptions C11_rename_local_partial_closed.
+
+Theorem C11_rename_local_answers : forall W files f line col o d,
+  occ_request_guard W files f o = true -> spec_occ files f line col = Some o -> s_bind o = BLocal d ->
+  exists l, run_refs files MRename f line col = ALocs l /\ forall x, In x l <-> In x (spec_refs (spec_ws files) f o).
+Proof. exact (refs_request_answers_occ MRename). Qed.
+Print Assumptions C11_rename_local_answers.
+
+Theorem C11_rename_local_partial_closed_file : forall W files f line col o d l,
+  request_guard W files f = true -> spec_occ files f line col = Some o -> s_bind o = BLocal d ->
+  run_refs files MRename f line col = ALocs l -> same_locs l (spec_refs (spec_ws files) f o) = true.
+Proof. exact (refs_request_closed MRename). Qed.
+Print Assumptions C11_rename_local_partial_closed_file.
+
+Example C11_closed_guard_nonvacuous :
+  request_guard 1000 [(a_lua, src_ok)] a_lua = true /\ request_guard 1000 [(a_lua, src_core)] a_lua = true /\
+  request_guard 1000 [(a_lua, src_ok); (b_lua, src_core)] b_lua = true /\
+  length (filter (fun s => match s_bind s with BLocal _ => true | BGlobal _ => false end) (bind_file (chunk_of src_core))) = 36%nat.
+Proof. vm_compute. repeat split; reflexivity. Qed.
+
+(* ================================================================== wide fragment (agent wide-fragment)
+   see Properties/C05.v / C06.v: rename on `_G.name` and on names inside tables / index / method expressions stays the
+   references computation; decided on wide programs by the leg c11.wide. *)
+From LH Require Import Model.ResolveWide Spec.LuaScopeWide Proofs.WideNarrow Proofs.WideRun.
+
+Theorem C11_wide_rename_is_references : forall g w f fi n line col,
+  references_at_wide MRename g w f fi n line col = references_at_wide MRefs g w f fi n line col.
+Proof. exact rename_is_references_wide. Qed.
+Print Assumptions C11_wide_rename_is_references.
+
+Theorem C11_wide_run_rename_narrow : forall files f line0 col,
+  all_in_fragment files = true -> all_text_ok files = true ->
+  answers_agree (run_refs_wide files MRename f line0 col) (run_refs files MRename f line0 col).
+Proof. exact (fun files => run_refs_wide_narrow files MRename). Qed.
+Print Assumptions C11_wide_run_rename_narrow.
+
+Example C11_wide_witness :
+  run_refs_wide w_wide MRename a_lua 2 7 = run_refs_wide w_wide MRefs a_lua 2 7 /\
+  ans_is (run_refs_wide w_wide MRename a_lua 2 7) [g_def; (a_lua, mk_loc 3 7 3 8); (a_lua, mk_loc 5 30 5 31)] = true.
+Proof. vm_compute. split; reflexivity. Qed.
